@@ -27,6 +27,9 @@ type c03Case struct {
 	EnvFor   string     `json:"env_events_for"`
 	Budget   int        `json:"env_event_budget"`
 	Choices  []int      `json:"choices"`
+	// Stall: the environment may also expire the session of EnvFor while that process is stalled (it
+	// has seen no session event yet and finds out at its next request) - assumption A3 dropped
+	Stall bool `json:"stall_expiry_allowed,omitempty"`
 }
 
 type c03Point struct {
@@ -42,16 +45,22 @@ type c03Client struct {
 	loss     bool
 	released bool
 	done     bool
+	// toldUnder: the session under which the last 'held' answer was given
+	toldUnder int64
 }
 
 const c03Lock = "/test/manager"
 
 func c03Run(r *vt.Run, c c03Case, report bool) (points []c03Point, choices []int) {
 	r.Eval()
+	stalledOnce := false
 	violate := func(clause, detail string) {
 		if report {
 			cc := c
 			cc.Choices = append([]int(nil), choices...)
+			if stalledOnce {
+				clause += "[after-a-stall]"
+			}
 			r.Violate("C03/"+clause, detail+fmt.Sprintf("; ttl=%ds scripts=%v sameHost=%v samePid=%v", c.TTL, c.Scripts, c.SameHost, c.SamePid), cc)
 		}
 	}
@@ -90,6 +99,7 @@ func c03Run(r *vt.Run, c c03Case, report bool) (points []c03Point, choices []int
 						if ok {
 							cc.last, cc.loss, cc.released = 1, false, false
 							zc := VerifClient(cc.cl.d)
+							cc.toldUnder = zc.Session
 							if owner := w.ZK.Owner(c03Lock); owner != zc.Session {
 								tag := "/plain"
 								if c.SamePid || c.SameHost {
@@ -130,7 +140,12 @@ func c03Run(r *vt.Run, c c03Case, report bool) (points []c03Point, choices []int
 			// (i) at most one process believes it holds the lock
 			var holders []string
 			for _, cc := range cls {
+				// ... and the session under which it was told so has not expired at the server while the
+				// process was stalled (it cannot have seen an event yet; being told again is clause ii)
 				if cc.last == 1 && !cc.loss && !cc.released {
+					if ss := w.ZK.Sessions[cc.toldUnder]; c.Stall && (ss == nil || !ss.Alive) {
+						continue
+					}
 					holders = append(holders, cc.name)
 				}
 			}
@@ -147,6 +162,9 @@ func c03Run(r *vt.Run, c c03Case, report bool) (points []c03Point, choices []int
 				zc := VerifClient(envClient.cl.d)
 				if zc.Connected {
 					envs = append(envs, "drop")
+					if c.Stall && !zc.Stalled && w.ZK.Sessions[zc.Session] != nil && w.ZK.Sessions[zc.Session].Alive {
+						envs = append(envs, "stallExpire")
+					}
 				} else {
 					envs = append(envs, "heal")
 					if w.ZK.Sessions[zc.Session] != nil && w.ZK.Sessions[zc.Session].Alive {
@@ -164,7 +182,7 @@ func c03Run(r *vt.Run, c c03Case, report bool) (points []c03Point, choices []int
 			for _, cc := range cls {
 				zc := VerifClient(cc.cl.d)
 				alive := w.ZK.Sessions[zc.Session] != nil && w.ZK.Sessions[zc.Session].Alive
-				fmt.Fprintf(&b, "%s pos=%d last=%d loss=%v rel=%v conn=%v alive=%v sess=%d %s|", cc.name, cc.pos, cc.last, cc.loss, cc.released, zc.Connected, alive, zc.Session&0xff, VerifState(cc.cl.d))
+				fmt.Fprintf(&b, "%s pos=%d last=%d loss=%v rel=%v conn=%v stalled=%v alive=%v sess=%d %s|", cc.name, cc.pos, cc.last, cc.loss, cc.released, zc.Connected, zc.Stalled, alive, zc.Session&0xff, VerifState(cc.cl.d))
 			}
 			for _, p := range pend {
 				if p.ZKReq == nil {
@@ -196,7 +214,11 @@ func c03Run(r *vt.Run, c c03Case, report bool) (points []c03Point, choices []int
 					owner := w.ZK.Owner(c03Lock)
 					if owner != 0 && owner != p.ZKReq.Client.Session && p.ZKReq.Client.Connected && (p.ZKReq.Version == -1 || p.ZKReq.Version == w.ZK.NodeVersion(c03Lock)) {
 						foreignDeleted = true
-						violate("3-release-never-removes-anothers-lock/delete-queued-across-session-change", fmt.Sprintf("%s deletes the lock znode (version %d) which is owned by the session of %s; trace %v", p.Proc, p.ZKReq.Version, ownerName(w, owner), trace))
+						how := "delete-queued-across-session-change"
+						if p.ZKReq.Version == -1 {
+							how = "unconditional-delete"
+						}
+						violate("3-release-never-removes-anothers-lock/"+how, fmt.Sprintf("%s deletes the lock znode (version %d) which is owned by the session of %s; trace %v", p.Proc, p.ZKReq.Version, ownerName(w, owner), trace))
 					}
 				}
 				return ch
@@ -213,6 +235,9 @@ func c03Run(r *vt.Run, c c03Case, report bool) (points []c03Point, choices []int
 				w.ZK.Heal(zc)
 			case "expire":
 				w.ZK.Expire(zc)
+			case "stallExpire":
+				w.ZK.StallExpire(zc)
+				stalledOnce = true
 			case "advTTL":
 				time.Sleep(time.Duration(c.TTL)*time.Second + time.Second)
 			}
@@ -293,6 +318,12 @@ func checkC03(r *vt.Run) {
 					}
 					cases = append(cases, c03Case{TTL: ttl, Scripts: [][]string{sa, sb}, SameHost: same, EnvFor: "A", Budget: budget})
 				}
+			}
+		}
+		// the same pairs with stall-expiry allowed (assumption A3 dropped), smaller budget
+		for _, sa := range [][]string{{"acq", "rel"}, {"acq", "acq"}, {"acq", "rel", "acq"}} {
+			for _, sb := range [][]string{{"acq"}, {"acq", "acq"}} {
+				cases = append(cases, c03Case{TTL: ttl, Scripts: [][]string{sa, sb}, EnvFor: "A", Budget: 2, Stall: true})
 			}
 		}
 		// a restarted process that reuses hostname and pid of a still-live session
